@@ -49,7 +49,7 @@ func refreshTable(c *core.Ctx, refresh *ssa.Function, maxLen int) (rs rows, runs
 					owner := ownerOf(refresh)
 					t.field = func(ip *absint.Interp, obj *absint.Tok, name string, typ types.Type) absint.Value {
 						if obj == factory && types.IsInterface(typ) {
-							if n := core.NamedOf(typ); n != nil && !n.Obj().Exported() && n.Obj().Pkg() != nil && core.InScopePath(n.Obj().Pkg().Path()) {
+							if n := core.NamedOf(typ); n != nil && !n.Obj().Exported() && n.Obj().Pkg() != nil && core.InScopePath(n.Obj().Pkg().Path()) && !ifaceHasMethod(typ, "GetMetas") && !ifaceHasMethod(typ, "GetMetaByName") && !ifaceHasMethod(typ, "GetSingleton") {
 								return absint.NewTok("delegate:"+name, "delegate") // the delegate behind a narrowed view
 							}
 							return reg
